@@ -41,6 +41,8 @@ struct H {
     dropped_err: bool,
     value: Value,
     maxlvl: i64,
+    /// when the reload stored its value (0: unknown)
+    wstamp: u64,
 }
 static HIST: Mutex<Vec<H>> = Mutex::new(Vec::new());
 static TURN: AtomicUsize = AtomicUsize::new(0);
@@ -62,7 +64,10 @@ fn lvl_num(l: LevelFilter) -> i64 {
     }
 }
 
-fn do_reload(v: &Value, via_modify: bool) -> (bool, bool) {
+/// -> (ok, is_dropped error, stamp at which the new value was stored - known only for `modify`, whose closure runs
+/// under the layer's write lock; 0 otherwise)
+fn do_reload(v: &Value, via_modify: bool) -> (bool, bool, u64) {
+    let wstamp = std::cell::Cell::new(0u64);
     // a clone of the handle, so that no harness lock is held while code under test runs and several threads
     // can reload at once
     let h = match &*HANDLE.lock().unwrap() {
@@ -76,7 +81,10 @@ fn do_reload(v: &Value, via_modify: bool) -> (bool, bool) {
             let nv: G0 = if v.is_null() { None } else { Some(stack::build_global::<Registry>(v)) };
             if via_modify {
                 let mut nv = Some(nv);
-                h.modify(|cur| *cur = nv.take().unwrap())
+                h.modify(|cur| {
+                    *cur = nv.take().unwrap();
+                    wstamp.set(detsim::stamp());
+                })
             } else {
                 h.reload(nv)
             }
@@ -85,7 +93,10 @@ fn do_reload(v: &Value, via_modify: bool) -> (bool, bool) {
             let nv: G1 = if v.is_null() { None } else { Some(stack::build_global::<CLeaf>(v)) };
             if via_modify {
                 let mut nv = Some(nv);
-                h.modify(|cur| *cur = nv.take().unwrap())
+                h.modify(|cur| {
+                    *cur = nv.take().unwrap();
+                    wstamp.set(detsim::stamp());
+                })
             } else {
                 h.reload(nv)
             }
@@ -94,16 +105,19 @@ fn do_reload(v: &Value, via_modify: bool) -> (bool, bool) {
             let nv: F0 = if v.is_null() { None } else { Some(stack::build_filter::<Registry>(v)) };
             if via_modify {
                 let mut nv = Some(nv);
-                h.modify(|cur| *cur = nv.take().unwrap())
+                h.modify(|cur| {
+                    *cur = nv.take().unwrap();
+                    wstamp.set(detsim::stamp());
+                })
             } else {
                 h.reload(nv)
             }
         }
-        None => return (false, false),
+        None => return (false, false, 0),
     };
     let out = match &r {
-        Ok(()) => (true, false),
-        Err(e) => (false, e.is_dropped()),
+        Ok(()) => (true, false, wstamp.get()),
+        Err(e) => (false, e.is_dropped(), 0),
     };
     out
 }
@@ -125,9 +139,32 @@ fn exec_step(gi: usize, t: usize, s: &Value, record_max: bool) {
         }
         "reload" => {
             h.value = s["v"].clone();
-            let (ok, de) = do_reload(&s["v"], s["modify"].as_bool().unwrap_or(false));
+            let via_modify = s["modify"].as_bool().unwrap_or(false);
+            let (ok, de, ws) = if s["unwind"].as_bool().unwrap_or(false) {
+                // fault: the reload is issued from a guard's destructor while a panic (caught here) unwinds; it
+                // must take effect like any other
+                fault("reload_during_unwinding");
+                struct ReloadOnDrop<'a>(&'a Value, bool, &'a std::cell::Cell<(bool, bool, u64)>);
+                impl Drop for ReloadOnDrop<'_> {
+                    fn drop(&mut self) {
+                        self.2.set(do_reload(self.0, self.1));
+                    }
+                }
+                let out = std::cell::Cell::new((false, false, 0));
+                // (the destructor takes locks other simulated threads may hold: it runs under the scheduler)
+                detsim::set_simulate_unwinding(true);
+                let _ = std::panic::catch_unwind(std::panic::AssertUnwindSafe(|| {
+                    let _g = ReloadOnDrop(&s["v"], via_modify, &out);
+                    panic!("injected panic in a scope that restores a filter on exit");
+                }));
+                detsim::set_simulate_unwinding(false);
+                out.get()
+            } else {
+                do_reload(&s["v"], via_modify)
+            };
             h.ok = ok;
             h.dropped_err = de;
+            h.wstamp = ws;
         }
         _ => {}
     }
@@ -189,7 +226,7 @@ impl Engine for ReloadEngine {
         None
     }
     fn rule(&self, _p: &str) -> String {
-        "reload handle around a global filter layer (inner or outer of the recording layer) or around a per-layer filter; <=6 reloads/modifies between {None, level, Targets table, EnvFilter directives, static closure} interleaved with <=30 emissions from the callsite pool on 2-3 threads, the reloads coming from one thread or (half of the scheduled runs) from any thread so that reloads overlap each other, as total orders (op granularity) and under seeded schedules (sync granularity: lock shim, callsite-registry lock, every interest/MAX_LEVEL atomic); non-trivial = some callsite was delivered before a reload and suppressed after it (or vice versa) and at least one emission overlapped or followed a reload on another thread; distinct = distinct (plan, schedule digest)".into()
+        "reload handle around a global filter layer (inner or outer of the recording layer) or around a per-layer filter; <=6 reloads/modifies between {None, level, Targets table, EnvFilter directives, static closure} interleaved with <=30 emissions from the callsite pool on 2-3 threads, the reloads coming from one thread or (half of the scheduled runs) from any thread so that reloads overlap each other (modify-based reloads record when they store their value, which orders overlapping reloads for the oracle), an eighth of the reloads issued by a destructor while a caught panic unwinds, as total orders (op granularity) and under seeded schedules (sync granularity: lock shim, callsite-registry lock, every interest/MAX_LEVEL atomic); non-trivial = some callsite was delivered before a reload and suppressed after it (or vice versa) and at least one emission overlapped or followed a reload on another thread; distinct = distinct (plan, schedule digest)".into()
     }
     fn components(&self) -> Value {
         json!({"real": ["tracing_subscriber::reload::{Subscriber, Handle}", "Registry + Layered + Filtered", "callsite::rebuild_interest_cache", "tracing macros"], "stub": ["parking_lot RwLock (cooperative)", "recording layer"]})
@@ -226,7 +263,7 @@ impl Engine for ReloadEngine {
                 reloads_left -= 1;
                 // under seeded schedules half of the runs reload from any thread, so reloads overlap each other
                 let rt = if multi_reloader { rng.below(nthreads) } else { 0 };
-                steps.push(json!({"t": rt, "op": "reload", "v": gen_value(&mut rng), "modify": rng.chance(1, 2)}));
+                steps.push(json!({"t": rt, "op": "reload", "v": gen_value(&mut rng), "modify": rng.chance(1, 2), "unwind": rng.chance(1, 8)}));
             } else {
                 steps.push(json!({"t": rng.below(nthreads), "op": if rng.chance(1, 4) { "span" } else { "event" }, "site": *rng.pick(&pool)}));
             }
@@ -237,6 +274,7 @@ impl Engine for ReloadEngine {
 
     fn execute(&self, plan: &Value) -> RunResult {
         let sched = plan_sched(plan);
+        std::panic::set_hook(Box::new(|_| {}));
         let mode = plan["cfg"]["mode"].as_str().unwrap_or("g0").to_string();
         let nthreads = plan["cfg"]["threads"].as_u64().unwrap_or(2).max(1) as usize;
         let initial = plan["cfg"]["initial"].clone();
@@ -319,12 +357,14 @@ fn oracle(sync: bool, initial: &Value, hist: &[H], log: &[LRec]) {
     hist.sort_by_key(|h| h.inv);
     // value timeline: (inv, ret, value)
     let mut values: Vec<(u64, u64, Value)> = vec![(0, 0, initial.clone())];
+    let mut wstamps: Vec<u64> = vec![0];
     for h in hist.iter().filter(|h| h.op == "reload") {
         if !h.ok {
             violation("reload-failed", format!("reload #{} returned an error although its collector is alive (is_dropped={})", h.gi, h.dropped_err));
             return;
         }
         values.push((h.inv, h.ret, h.value.clone()));
+        wstamps.push(h.wstamp);
     }
     for h in hist.iter().filter(|h| h.op == "reload_after_drop") {
         if h.ok || !h.dropped_err {
@@ -343,7 +383,11 @@ fn oracle(sync: bool, initial: &Value, hist: &[H], log: &[LRec]) {
             // (reloads may come from several threads and overlap: a value is out of the picture once a reload
             // that began after it had returned has itself returned before the emission began)
             let my_ret = values[i].1;
-            let superseded = values.iter().enumerate().any(|(j, n)| j != i && my_ret < n.0 && n.1 < h.inv);
+            let superseded = values.iter().enumerate().any(|(j, n)| j != i && my_ret < n.0 && n.1 < h.inv)
+                // overlapping reloads whose store order is known: a value stored earlier is out once the reload that
+                // stored the later one has returned (its rebuild came after both stores)
+                || (i > 0 && wstamps[i] != 0 && values.iter().enumerate().any(|(j, n)| j != i && wstamps[j] > wstamps[i] && n.1 < h.inv))
+                || (i == 0 && values.iter().enumerate().any(|(j, n)| j != 0 && n.1 < h.inv));
             if started_before_end && !superseded {
                 allowed.push(v);
             }
